@@ -117,6 +117,107 @@ def c_ir(n: Dict[str, Any], src_of: Optional[Callable[[Dict[str, Any]], str]] = 
     return ('other', src_of(n) if src_of else str(k))
 
 
+def ir_subst(e: Any, binding: Dict[str, IR]) -> Any:
+    """e with every ('sym', name) of the binding replaced by its IR"""
+    if isinstance(e, tuple):
+        if e and e[0] == 'sym' and e[1] in binding:
+            return binding[e[1]]
+        return tuple(ir_subst(x, binding) for x in e)
+    if isinstance(e, list):
+        return [ir_subst(x, binding) for x in e]
+    return e
+
+
+def c_fn_value_ir(body: Dict[str, Any], src_of: Optional[Callable[[Dict[str, Any]], str]] = None) -> Optional[IR]:
+    """the value of a side-effect-free C function as ONE expression over its parameters: a body made of `return E;` and
+    `if (C) return A; [else ...]` statements reads as nested conditionals (None when the body has any other statement)."""
+    def of(stmts: List[Dict[str, Any]]) -> Optional[IR]:
+        if not stmts:
+            return None
+        st = stmts[0]
+        k = st.get('kind')
+        if k == 'CompoundStmt':
+            return of([x for x in st.get('inner', []) if isinstance(x, dict)] + stmts[1:])
+        if k == 'ReturnStmt' and st.get('inner'):
+            return c_ir(st['inner'][0], src_of)
+        if k == 'IfStmt':
+            inner = st['inner']
+            then = of([inner[1]])
+            if then is None:
+                return None
+            other = of([inner[2]] + stmts[1:]) if len(inner) > 2 else of(stmts[1:])
+            if other is None:
+                return None
+            return ('cond', c_ir(inner[0], src_of), then, other)
+        return None
+    return of([body])
+
+
+# ---------------------------------------------------------------- propositional reading of conditions
+
+def bool_form(ir: IR) -> Any:
+    """a condition as a propositional formula over canonical atoms: ('and'|'or', [..]), ('not', f), ('atom', text).
+    comparisons are reduced to `a < b` and `a == b` atoms (a >= b is not(a < b), a > b is b < a, ...); `x != 0`, `x != NULL`
+    and a bare `x` are the truthiness atom of x."""
+    t = ir[0]
+    if t == 'bool':
+        return (ir[1], [bool_form(x) for x in ir[2]])
+    if t == 'un' and ir[1] == '!':
+        return ('not', bool_form(ir[2]))
+    if t == 'cmp' and len(ir[1]) == 1:
+        op, a, b = ir[1][0], ir[2][0], ir[2][1]
+        zero = lambda x: x == ('num', 0) or x == ('sym', 'NULL') or show(x) in ('NULL', '((void *)0)')  # noqa: E731
+        if op in ('==', '!='):
+            if zero(b) or zero(a):
+                f = bool_form(a if zero(b) else b)
+                return ('not', f) if op == '==' else f
+            x, y = sorted((show(a), show(b)))
+            f = ('atom', f'{x} == {y}')
+            return f if op == '==' else ('not', f)
+        if op == '<':
+            return ('atom', f'{show(a)} < {show(b)}')
+        if op == '>':
+            return ('atom', f'{show(b)} < {show(a)}')
+        if op == '>=':
+            return ('not', ('atom', f'{show(a)} < {show(b)}'))
+        if op == '<=':
+            return ('not', ('atom', f'{show(b)} < {show(a)}'))
+    return ('atom', show(ir))
+
+
+def _bf_atoms(f: Any, out: set) -> set:
+    if f[0] == 'atom':
+        out.add(f[1])
+    elif f[0] == 'not':
+        _bf_atoms(f[1], out)
+    else:
+        for x in f[1]:
+            _bf_atoms(x, out)
+    return out
+
+
+def _bf_eval(f: Any, a: Dict[str, bool]) -> bool:
+    if f[0] == 'atom':
+        return a[f[1]]
+    if f[0] == 'not':
+        return not _bf_eval(f[1], a)
+    vals = [_bf_eval(x, a) for x in f[1]]
+    return all(vals) if f[0] == 'and' else any(vals)
+
+
+def bf_implies(facts: List[Any], goal: Any) -> bool:
+    """do the facts (formulas) together imply the goal, for every truth assignment of the atoms (at most 12 atoms)"""
+    import itertools
+    atoms = sorted(_bf_atoms(goal, set()).union(*[_bf_atoms(f, set()) for f in facts]) if facts else _bf_atoms(goal, set()))
+    if len(atoms) > 12:
+        raise Unrecognised(f'too many atoms for a truth table: {atoms}')
+    for vals in itertools.product((False, True), repeat=len(atoms)):
+        a = dict(zip(atoms, vals))
+        if all(_bf_eval(f, a) for f in facts) and not _bf_eval(goal, a):
+            return False
+    return True
+
+
 # ---------------------------------------------------------------- printing (canonical)
 
 def show(e: IR) -> str:
